@@ -1,0 +1,17 @@
+//go:build verif
+
+package app
+
+import "github.com/go-kid/ioc/definition"
+
+// VerifCloseYield, when set, is called by each goroutine that App.Close starts, before it
+// invokes the closer. The verification harness in /verif uses it to park the goroutine so
+// that the order in which closers start, run and finish is a decision of the simulator.
+// Only present under the build tag `verif`; nil by default.
+var VerifCloseYield func(m definition.CloserComponent)
+
+func verifCloseYield(m definition.CloserComponent) {
+	if f := VerifCloseYield; f != nil {
+		f(m)
+	}
+}
